@@ -84,6 +84,20 @@ type HoldsCustom struct {
 	N *int    `json:"n"`
 }
 
+// Picky decodes itself and turns down what it does not like with an error of
+// the library's own error type and a code of its own: to the caller of the
+// handler that is still a parameter that does not decode (InvalidParams).
+type Picky struct{ N int }
+
+func (p *Picky) UnmarshalJSON(b []byte) error {
+	var n int
+	if err := json.Unmarshal(b, &n); err != nil || n < 0 {
+		return &jrpc2.Error{Code: 1001, Message: "picky says no"}
+	}
+	p.N = n
+	return nil
+}
+
 // ErrLike is an ordinary JSON-marshalable value type that happens to have an
 // Error method: as a result type it is a Y, not the error position.
 type ErrLike struct {
@@ -103,10 +117,11 @@ var named = map[string]reflect.Type{
 	"StrictP":     reflect.TypeOf(StrictP{}),
 	"Omit":        reflect.TypeOf(Omit{}),
 	"HoldsCustom": reflect.TypeOf(HoldsCustom{}),
+	"Picky":       reflect.TypeOf(Picky{}),
 }
 
 // NamedNames lists the hand-declared types.
-var NamedNames = []string{"ErrLike", "EmbTagged", "EmbUntagged", "CustomU", "TextU", "StrictV", "StrictP", "Omit", "HoldsCustom"}
+var NamedNames = []string{"ErrLike", "EmbTagged", "EmbUntagged", "CustomU", "TextU", "StrictV", "StrictP", "Omit", "HoldsCustom", "Picky"}
 
 var (
 	ctxType = reflect.TypeOf((*context.Context)(nil)).Elem()
@@ -218,7 +233,7 @@ func GenFields(t *rapid.T, depth int) []FieldDesc {
 	used := map[string]bool{}
 	for i := 0; i < n; i++ {
 		f := FieldDesc{Name: fmt.Sprintf("F%c", 'A'+i), T: GenType(t, depth+1, depth < 1)}
-		switch rapid.IntRange(0, 7).Draw(t, "tagk") {
+		switch rapid.IntRange(0, 8).Draw(t, "tagk") {
 		case 0:
 			f.Tag = `json:"-"`
 		case 1:
@@ -230,6 +245,12 @@ func GenFields(t *rapid.T, depth int) []FieldDesc {
 		case 4:
 			f.Unexported = true
 			f.Name = fmt.Sprintf("f%c", 'a'+i)
+		case 5:
+			// encoding/json: `json:"-,"` is a field whose name is "-", not an omitted one
+			if !used["-"] {
+				f.Tag = rapid.SampledFrom([]string{`json:"-,"`, `json:"-,omitempty"`}).Draw(t, "dashtag")
+				used["-"] = true
+			}
 		}
 		if used[strings.ToLower(f.Name)] {
 			continue
@@ -299,6 +320,8 @@ func GenJSON(t *rapid.T, d TypeDesc) string {
 			return rapid.SampledFrom([]string{`{"A":1,"B":"x"}`, `{"A":2}`, `{}`}).Draw(t, "nv")
 		case "Omit":
 			return rapid.SampledFrom([]string{`{"a":1,"C":true}`, `{}`, `{"a":5}`}).Draw(t, "nv")
+		case "Picky":
+			return rapid.SampledFrom([]string{`5`, `0`, `-3`, `"x"`, `7`}).Draw(t, "nv")
 		case "HoldsCustom":
 			return rapid.SampledFrom([]string{`{"c":"p,q","t":"tt","n":5}`, `{"n":null}`, `{}`}).Draw(t, "nv")
 		}
